@@ -14,6 +14,16 @@ ASSUMPTIONS = ["one fresh interpreter per (termination mode, argument, position,
                "environment meets an uncaught exception, KeyboardInterrupt, sys.exit(1), sys.exit() and a normal end at least once. The "
                "model has no notion of foreign hooks: the observed (status, artefact, messages) must equal the model's for the same "
                "script without them, i.e. the interposition must work whatever hook was there before",
+               "foreign hooks that do not return (installed before pysnark is imported): the application's sys.excepthook raises itself, "
+               "calls sys.exit(0) / sys.exit(3), raises SystemExit(0), or calls os._exit(0) after logging. A script that ends through an "
+               "uncaught exception or KeyboardInterrupt has failed whatever status the application's hook then chooses: no artefact may "
+               "be produced (`emitted-after-uncaught-exception`); for these combinations the exit status is the application's business "
+               "and is not compared with the model, everything else (no artefact, the skipped message, no hook failure) is",
+               "other modules in the process: a fifth of the scripts (and every well-behaved successful / failing termination at least "
+               "once) import what scripts commonly import before or after pysnark: standard-library tooling (unittest, doctest, logging, "
+               "argparse, pdb, timeit), installed third-party packages when /venv has them (pytest, hypothesis, coverage, setuptools), and "
+               "EMPTY stand-in modules named like widespread packages (sphinx, IPython, numpy, nose, docutils, tox) on a scratch "
+               "PYTHONPATH entry; the outcome must be that of the same script without them (the model knows nothing about sys.modules)",
                "file-writing backends: snarkjs, zkinterface (flatbuffers stand-in), qaptools (failing stub binaries: the artefact "
                "observed is pysnark_schedule, written by prove() before the first external tool)"]
 PARTIAL = ["C18_emit_iff_partial: termination events in the well-behaved set (fall off the end, sys.exit(...), uncaught exception, "
@@ -49,12 +59,52 @@ ENV_SRC = {
     "exit-wrap": ["_prev_exit = sys.exit", "def _app_exit(*a):", "    sys.stderr.write('app: leaving\\n'); _prev_exit(*a)", "sys.exit = _app_exit"],
 }
 ENV_SRC["hook-chain+exit-wrap"] = ENV_SRC["hook-chain"] + ENV_SRC["exit-wrap"]
+# application hooks that do NOT return: the crash reporter fails itself / decides the exit status / ends the process
+NONRETURNING = {"hook-raises": "raise RuntimeError('crash reporter failed')", "hook-exits-0": "sys.exit(0)", "hook-exits-3": "sys.exit(3)",
+                "hook-raises-SystemExit": "raise SystemExit(0)", "hook-hard-exit": "sys.stderr.flush(); os._exit(0)"}
+for _e, _stmt in NONRETURNING.items():
+    ENV_SRC[_e] = ["def _app_hook(tp, ex, tb):", "    sys.stderr.write('app: fatal %s, shutting down\\n' % tp.__name__)", "    " + _stmt,
+                   "sys.excepthook = _app_hook"]
+ENVS += list(NONRETURNING)
+EXC_TERMS = ("uncaught", "kbd")
+
+# modules a script (or the tool that launches it) commonly has imported; class -> names
+STDLIB_MODS = ["unittest", "doctest", "logging", "argparse", "pdb", "timeit"]
+THIRD_PARTY = ["pytest", "hypothesis", "coverage", "setuptools"]
+STANDIN_MODS = ["sphinx", "IPython", "numpy", "nose", "docutils", "tox"]
+STANDIN_SRC = "# empty stand-in for an installed third-party package (harness/props/c18.py)\n__version__ = '0'\n"
+_installed = {}
 
 
-def script_src(autoprove, n, k, caught, term, env=""):
-    """env: what the application installed around the import of pysnark (see ENVS)"""
-    L = ["import sys, os"] + (ENV_SRC[env] if env in ENV_SRC else []) + \
-        ["import pysnark.runtime as R", "from pysnark.runtime import PrivVal"] + \
+def installed(mod):
+    if mod not in _installed:
+        _installed[mod] = subprocess.run([common.PY, "-c", f"import importlib.util, sys; sys.exit(0 if importlib.util.find_spec('{mod}') else 1)"],
+                                         capture_output=True).returncode == 0
+    return _installed[mod]
+
+
+def gen_imports(rnd, force=None):
+    """1-3 imports: (position, class, module); position 'before'/'after' the import of pysnark"""
+    out = []
+    for _ in range(rnd.choice([1, 1, 2, 3])):
+        cls = force or rnd.choice(["stdlib", "third-party", "stand-in", "stand-in"])
+        have = [m for m in THIRD_PARTY if installed(m)] if cls == "third-party" else []
+        if cls == "third-party" and not have:
+            cls = "stand-in"
+        mod = rnd.choice(STDLIB_MODS if cls == "stdlib" else have if cls == "third-party" else STANDIN_MODS)
+        if not any(m == mod for _, _, m in out):
+            out.append((rnd.choice(["before", "after"]), cls, mod))
+    return out
+
+
+def import_class(imports):
+    return "+".join(sorted({c for _, c, _ in imports})) or "none"
+
+
+def script_src(autoprove, n, k, caught, term, env="", imports=()):
+    """env: what the application installed around the import of pysnark (see ENVS); imports: other modules the script imports"""
+    L = ["import sys, os"] + [f"import {m}" for w, _, m in imports if w == "before"] + (ENV_SRC[env] if env in ENV_SRC else []) + \
+        ["import pysnark.runtime as R", "from pysnark.runtime import PrivVal"] + [f"import {m}" for w, _, m in imports if w == "after"] + \
         (ENV_SRC["hook-chain"] if env == "hook-after-import" else []) + [f"R.autoprove = {bool(autoprove)}"]
     for c in caught:
         L += ["try:", f"    sys.exit({ARGS[c]})", "except SystemExit:", "    pass"]
@@ -68,12 +118,16 @@ def script_src(autoprove, n, k, caught, term, env=""):
 
 
 def run_one(job):
-    backend, src = job
+    backend, src = job[0], job[1]
+    standins = job[2] if len(job) > 2 else []
     d = tempfile.mkdtemp(prefix="verif-c18-")
+    lib = tempfile.mkdtemp(prefix="verif-c18-lib-") if standins else None
     try:
         open(os.path.join(d, "s.py"), "w").write(src)
         env = common.backend_env(backend)
-        env["PYTHONPATH"] = os.pathsep.join([p for p in [env.get("PYTHONPATH", ""), common.REPO] if p])
+        env["PYTHONPATH"] = os.pathsep.join([p for p in [env.get("PYTHONPATH", ""), common.REPO, lib] if p])
+        for m in standins:              # empty modules named like widespread packages, outside the script's directory
+            open(os.path.join(lib, m + ".py"), "w").write(STANDIN_SRC)
         pr = subprocess.run([common.PY, "s.py"], cwd=d, env=env, capture_output=True, text=True, timeout=120)
         files = sorted(os.listdir(d))
         out = {"status": pr.returncode, "files": files, "stderr": pr.stderr[-2000:], "stdout": pr.stdout[-500:]}
@@ -86,6 +140,7 @@ def run_one(job):
         return out
     finally:
         shutil.rmtree(d, ignore_errors=True)
+        if lib: shutil.rmtree(lib, ignore_errors=True)
 
 
 def gen(rnd, nq):
@@ -95,16 +150,25 @@ def gen(rnd, nq):
     out = []
     for t in terms:                                   # every termination mode at least once
         n = rnd.randrange(1, 4); k = n if t == "fall" else rnd.randrange(0, n + 1)
-        out.append((1, n, k, [], t, ""))
+        out.append((1, n, k, [], t, "", []))
+    for cls in ("stdlib", "third-party", "stand-in", "stand-in", None):   # other modules imported: successful and failing ends
+        for t in ("fall", "sysexit", "sysexit=i:0", "uncaught", "sysexit=i:1"):
+            n = rnd.randrange(1, 4); k = n if t == "fall" else rnd.randrange(0, n + 1)
+            out.append((1, n, k, [], t, "", gen_imports(rnd, cls)))
+    for env in NONRETURNING:                          # a hook that does not return meets both kinds of uncaught exception twice
+        for t in ("uncaught", "kbd", "uncaught"):
+            n = rnd.randrange(1, 4); k = rnd.randrange(0, n + 1)
+            out.append((1, n, k, [], t, env, []))
     for env in ENVS:                                  # every application environment meets every well-behaved termination
         for t in ("uncaught", "kbd", "sysexit=i:1", "sysexit", "fall"):
             n = rnd.randrange(1, 4); k = n if t == "fall" else rnd.randrange(0, n + 1)
-            out.append((1, n, k, [], t, env))
+            out.append((1, n, k, [], t, env, []))
     while len(out) < nq:
         t = rnd.choice(terms)
         n = rnd.randrange(0, 5); k = n if t == "fall" else rnd.randrange(0, n + 1)
         caught = [rnd.choice(["i:3", "i:0", "none", "s:1"]) for _ in range(rnd.choice([0, 0, 0, 1, 2]))]
-        out.append((rnd.choice([1, 1, 1, 0]), n, k, caught, t, rnd.choice(ENVS) if rnd.random() < 0.35 else ""))
+        out.append((rnd.choice([1, 1, 1, 0]), n, k, caught, t, rnd.choice(ENVS) if rnd.random() < 0.35 else "",
+                    gen_imports(rnd) if rnd.random() < 0.2 else []))
     return out
 
 
@@ -117,17 +181,20 @@ def explore(ctx, extended=False, focus=None):
                "termination, backend)")
     scripts = gen(ctx.rnd, ctx.n(120, 1400) * (2 if extended else 1))
     jobs = []; meta = []
-    for i, (ap, n, k, caught, t, env) in enumerate(scripts):
+    for i, (ap, n, k, caught, t, env, imps) in enumerate(scripts):
         bes = BACKENDS if (i < 30 or ctx.thorough()) else [ctx.rnd.choice(BACKENDS)]
         for be in bes:
-            jobs.append((be, script_src(ap, n, k, caught, t, env))); meta.append((ap, n, k, caught, t, be, env))
+            jobs.append((be, script_src(ap, n, k, caught, t, env, imps), [m for _, c, m in imps if c == "stand-in"]))
+            meta.append((ap, n, k, caught, t, be, env, imps))
     with cf.ThreadPoolExecutor(14) as pool:
         outs = list(pool.map(run_one, jobs))
-    lines = [f"X|x{i}|{ap}|0|{n}|{k}|{','.join(caught)}|{t}" for i, (ap, n, k, caught, t, be, env) in enumerate(meta)]
+    lines = [f"X|x{i}|{ap}|0|{n}|{k}|{','.join(caught)}|{t}" for i, (ap, n, k, caught, t, be, env, imps) in enumerate(meta)]
     ml = common.lean_driver(lines)
-    for (ap, n, k, caught, t, be, env), o, m in zip(meta, outs, ml):
+    for (ap, n, k, caught, t, be, env, imps), o, m in zip(meta, outs, ml):
         ex.evaluations += 1
-        ex.distinct.add((ap, n, k, tuple(caught), t, be, env))
+        ex.distinct.add((ap, n, k, tuple(caught), t, be, env, tuple(imps)))
+        ex.count(f"imports:{import_class(imps)}")
+        for _, _, mod in imps: ex.count(f"imported:{mod}")
         ex.count(f"term:{t.split('=')[0]}"); ex.count(f"backend:{be}"); ex.count(f"autoprove:{ap}"); ex.count(f"env:{env or 'none'}")
         mf = dict(x.split("=") for x in m.split("|")[1:])
         emitted = ARTEFACT[be] in o["files"]
@@ -136,22 +203,35 @@ def explore(ctx, extended=False, focus=None):
         skipped = "skipping proof generation" in o["stderr"]
         impl = {"status": status, "prove": int(emitted), "hookfail": int(hookfail), "skipped": int(skipped)}
         model = {"status": int(mf["status"]), "prove": int(mf["prove"]), "hookfail": int(mf["hookfail"]), "skipped": int(mf["skipped"])}
+        # a foreign hook that does not return decides the status of a run that died of an exception: not the model's business
+        hook_decides = env in NONRETURNING and t in EXC_TERMS
+        if hook_decides:
+            ex.count(f"nonreturning-hook-met:{t}")
+            model["status"] = impl["status"]
+            if env == "hook-hard-exit": model["skipped"] = 0         # os._exit in the hook: no exit hooks run at all
         if impl != model:
-            ex.disagreements.append({"script": (ap, n, k, caught, t, be, env), "impl": impl, "model": model, "stderr": o["stderr"][-300:]})
+            ex.disagreements.append({"script": (ap, n, k, caught, t, be, env, imps), "impl": impl, "model": model, "stderr": o["stderr"][-300:]})
         else:
             ex.traces_validated += 1
         sig = {"term": t.split("=")[0], "arg": t.split("=")[1] if "=" in t else "", "caught": bool(caught), "autoprove": ap,
                "env": env or "none"}
+        if imps:
+            sig["imports"] = import_class(imps)
         rep = {"autoprove": ap, "n": n, "k": k, "caught": caught, "term": t, "backend": be, "env": env, "observed": impl,
-               "script": script_src(ap, n, k, caught, t, env)}
+               "script": script_src(ap, n, k, caught, t, env, imps), "imports": imps, "standins": [m for _, c, m in imps if c == "stand-in"]}
         if ap:
             if emitted and status != 0:
                 ex.violations.append(Violation(dict(sig, dev="emitted-with-failing-status"),
                                                f"{t} after {k} operations{' (application environment: ' + env + ')' if env else ''}: exit status {status} but "
                                                f"{ARTEFACT[be]} was written ({be})", rep))
-            if not emitted and status == 0 and not t.startswith("osexit"):
+            if emitted and status == 0 and t in EXC_TERMS:
+                ex.violations.append(Violation(dict(sig, dev="emitted-after-uncaught-exception"),
+                                               f"{t} after {k} operations (application environment: {env or 'none'}): the script ended through an "
+                                               f"uncaught exception, the process left with status 0 and {ARTEFACT[be]} was written ({be})", rep))
+            if not emitted and status == 0 and not t.startswith("osexit") and not hook_decides:
                 ex.violations.append(Violation(dict(sig, dev="not-emitted-with-status-0"),
-                                               f"{t} after {k} operations (caught exits {caught}): exit status 0 but no artefact ({be})", rep))
+                                               f"{t} after {k} operations (caught exits {caught}{', imports ' + ', '.join(m for _, _, m in imps) if imps else ''}): "
+                                               f"exit status 0 but no artefact ({be})", rep))
             if emitted and be == "snarkjs" and "nwit" in o and (o["nwit"], o["ncons"]) != (1 + 3 * k, k):
                 ex.violations.append(Violation(dict(sig, dev="incomplete-trace"),
                                                f"{t}: artefact holds {o['nwit']} wires/{o['ncons']} constraints, the trace before the event has "
@@ -165,11 +245,11 @@ def explore(ctx, extended=False, focus=None):
                 ex.violations.append(Violation(dict(sig, dev="hook-fails"),
                                                f"{t}: with autoprove off the exit hook raises AttributeError (backend.process_snark)", rep))
         if len(ex.samples) < 5:
-            ex.samples.append({"script": script_src(ap, n, k, caught, t, env), "backend": be, "observed": impl})
+            ex.samples.append({"script": script_src(ap, n, k, caught, t, env, imps), "backend": be, "observed": impl})
     return ex
 
 
 def replay(ctx, payload):
     r = payload["replay"]
-    print(run_one((r["backend"], r["script"])))
+    print(run_one((r["backend"], r["script"], r.get("standins", []))))
     return 0
